@@ -24,7 +24,7 @@ RULE = ('every program of the families nest (block hosts nested to depth 3 aroun
 ASSUMPTIONS = ['token depth (blocks + brackets open, closing token already closed) comes from the derivation',
                'physical lines that end inside a multi-line string token are exempt from the whitespace rules',
                'blank-line runs of length 1, 3 and whitespace-only blank lines are the same line structure']
-BOUNDS = {'quick': {'perturbed_places': 1, 'widths': [0, 2, 8], 'stat_deviations': 1},
+BOUNDS = {'quick': {'perturbed_places': 1, 'widths': [0, 2, 8], 'stat_deviations': 1, 'max_tokens': 13},
           'thorough': {'perturbed_places': 2, 'widths': list(range(9)), 'stat_deviations': 2}}
 
 LEADS = [b' ', b'\t', b'     ']
@@ -313,6 +313,8 @@ def run_shard(item):
         if isinstance(prog, tuple) or c08.has_qprint(prog.skeleton):
             continue
         if fam == 'stat' and len(prog.toks) > (9 if tier == 'quick' else 14):
+            continue
+        if tier == 'quick' and len(prog.toks) > 13:
             continue
         hk = h64(b' '.join(prog.spellings()))
         if hk in seen:
